@@ -106,6 +106,8 @@ def check_history(ctx, case):
         step["encode_first"] = False
         if step["op"] == "reroot_at_midpoint" and not all(pre.length[i] is not None and pre.length[i] >= 0 for i in pre.nodes() if i != pre.root):
             step["op"] = "reseed_at"
+        if k:
+            ctx.evaluations += 1   # every step of a history is one judged (tree, operation) case
         run_op(ctx, tree, bits, pre, step, spec, history=kinds)
         kinds.append(step["op"])
     if len(kinds) >= 2:
